@@ -925,7 +925,10 @@ class GroupBy:
 
         for i in range(n_values):
             slice_ = slice(i * len(group_keys), (i + 1) * len(group_keys))
-            results_one_value = results[slice_]
+            # numba does not understand datetime64 / timedelta64: merge the int64 views
+            results_one_value, orig_types = zip(
+                *map(numba_funcs._cast_timestamps_to_ints, results[slice_])
+            )
             combined = numba_funcs._build_target_for_groupby(
                 results_one_value[0].dtype,
                 # partial counts are added up: an integer sum target, not the boolean placeholder
@@ -949,6 +952,8 @@ class GroupBy:
                     y_counts=counts_one_value[j][:-1],
                 )
                 count[pointer] += counts_one_value[j][:-1]  # ignore null group
+            if orig_types[0].kind in "mM":
+                combined = combined.view(orig_types[0])
             individual_results.append((combined, count))
 
         return individual_results
